@@ -202,6 +202,24 @@ def run_side(u, overlay_dir, tier, log):
             problems.append("get_random_module no longer formats \"{}\\n{}\\n\" from (module, attr): module_contract must be re-derived")
         return _res(kani_run.OK if not problems else kani_run.INCONCLUSIVE, problems, time_s=round(time.time() - t0, 2),
                     checks_total=n, lines=n, longest=longest)
+    elif name == "oracle_vs_cpython":
+        seed = int(os.environ.get("VERIF_SEED", "0") or 0) + 1
+        n = 4000 if tier == "quick" else 20000
+        cases = os.path.join(overlay_dir, "oracle_cases.txt")
+        subprocess.run(["/usr/bin/python3", os.path.join(VERIF, "oracle", "validate_ref.py"), cases, str(n), str(seed)], check=True)
+        env = kani_run._env()
+        env["CARGO_TARGET_DIR"] = os.path.join(kani_run.CACHE, "playback-target")
+        env["VERIF_ORACLE_CASES"] = cases
+        logp = os.path.join(overlay_dir, "oracle.log")
+        with open(logp, "w") as lf:
+            subprocess.run(["cargo", "kani", "playback", "-Z", "concrete-playback", "--", "oracle_cases", "--nocapture"],
+                           cwd=overlay_dir, env=env, stdout=lf, stderr=subprocess.STDOUT, timeout=1800)
+        txt = open(logp, errors="replace").read()
+        m = re.search(r"oracle_cases: (\d+) cases, (\d+) skipped \(too deep\), (\d+) lexer mismatches, (\d+) machine mismatches", txt)
+        if not m or "test result: ok. 1 passed" not in txt:
+            return _res(kani_run.INCONCLUSIVE, ["the reference lexer/machine disagrees with CPython's pickletools (or the native test could not run): "
+                                                 + (m.group(0) if m else txt[-300:])], time_s=round(time.time() - t0, 2))
+        return _res(kani_run.OK, [], time_s=round(time.time() - t0, 2), checks_total=int(m.group(1)), oracle=m.group(0))
     else:
         return _res(kani_run.INCONCLUSIVE, ["unknown side condition " + name])
     # a broken side condition means a stub/assumption no longer matches the code: machinery, not a violation
